@@ -21,7 +21,7 @@ RULE = ('random CLOSED sampler configurations (1-5 fragments, 1-4 descriptors ea
         '<= written, valence completeness in all-atom mode; the log must be a derivation of the graph (one fragment, one '
         'bond per step). An exception is a legitimate dead end only if the failing growth step had no open descriptor '
         'with positive weight. distinct = (feature set, #blocks bucket); non-trivial = at least 2 blocks.')
-ASSUMPTIONS = ['closed configurations: every >x has a <x of the same order in some fragment; $ pairs with any $ of equal order',
+ASSUMPTIONS = ['closed configurations: every >x has a <x of the same order in some fragment; $ pairs with any $ of equal order (12 % of the configurations carry one descriptor more whose complement exists with another order only: an exception there is a dead end, a returned molecule is judged like any other)',
                'block atoms in key order correspond to template atoms in template order (used for the per-atom ledger only; '
                'the copy check itself is an isomorphism test)']
 MECHANISMS = [('cgsmiles.sample', 'MoleculeSampler.add_fragment'), ('cgsmiles.sample', 'MoleculeSampler.sample'),
@@ -38,7 +38,7 @@ def cases(seed, tier, shard, nshards):
     rng = random.Random(f'{seed}:C16:{tier}:{shard}')
     made = 0
     while made < SIZES[tier] // nshards:
-        c = SC.random_config(rng)
+        c = SC.random_config(rng, closed=rng.random() >= 0.12)
         if c is None:
             continue
         made += 1
@@ -175,7 +175,9 @@ def run(cfg):
         fail = dict(SC.FAIL)
         if fail:
             eligible = [d for d in fail['open_bonds'] if (not fail['polymer'] or fail['polymer'].get(d, 0) > 0)]
-            if eligible:
+            if eligible and cfg.get('unclosed'):
+                rejected['dead_end_descriptor_without_partner_of_equal_order'] = 1
+            elif eligible:
                 viol.append(V('c16.unexpected_exception.' + type(err).__name__, f'{txt}: sample() raised {type(err).__name__}: {err} although '
                               f'open descriptors {eligible} had positive weight (open: {fail["open_bonds"]})'))
             else:
